@@ -961,6 +961,202 @@ def generate_orch():
     return '\n'.join(lines) + '\n'
 
 
+# ---------------------------------------------------------------- translator to coq/ObjAst.v
+OBJ_ATTRS = {'_inner', '_left', '_right', '_inners', '_parameter', 'n', 'base', 'value', 'name', '_coordinates',
+             '_original_expression', '_variable_name', '_point'}
+OBJ_METHODS = ('__eq__', '__hash__', '__str__', '__repr__', '_to_string')
+OBJ_FILES = [('expression', 'constant'), ('expression', 'variable'), ('expression', 'nth_power'), ('expression', 'nth_root'),
+             ('expression', 'exponential'), ('expression', 'logarithm'),
+             ('base_expression', 'unary_expression'), ('base_expression', 'parameterized_unary_expression'),
+             ('base_expression', 'binary_expression'), ('base_expression', 'n_ary_expression'),
+             ('', 'point'), ('', 'partial'), ('', 'derivative'), ('', 'differential'), ('', 'located_differential')]
+
+
+def tokenize_literal(text, where):
+    """a literal piece of an f-string -> ltok list; double quotes around an interpolated name are dropped
+    (the model's TStr token stands for the name with or without its quotes)"""
+    out = []
+    i = 0
+    while i < len(text):
+        c = text[i]
+        if c in ' "':
+            i += 1
+        elif c == '(':
+            out.append('LLP'); i += 1
+        elif c == ')':
+            out.append('LRP'); i += 1
+        elif c == ',':
+            out.append('LComma'); i += 1
+        elif c == '=':
+            out.append('LEq'); i += 1
+        elif c.isalpha() or c == '_':
+            j = i
+            while j < len(text) and (text[j].isalnum() or text[j] == '_'):
+                j += 1
+            out.append('(LName %s)' % coq_str(text[i:j]))
+            i = j
+        else:
+            raise TieError('cannot tokenise the literal %r in %s' % (text, where))
+    return coq_list(out)
+
+
+class ObjTranslator:
+    """__eq__ / __hash__ / printers -> ObjAst.qfun (fail-closed)"""
+
+    def __init__(self, where):
+        self.where = where
+
+    def fail(self, what, node=None):
+        raise TieError('cannot translate %s in %s: %s' % (what, self.where, ast.dump(node)[:160] if node is not None else ''))
+
+    def expr(self, e):
+        if isinstance(e, ast.Name):
+            if e.id == 'self':
+                return 'QSelf'
+            if e.id == 'other':
+                return 'QOther'
+            return '(QName %s)' % coq_str(e.id)
+        if isinstance(e, ast.Constant):
+            if isinstance(e.value, bool):
+                return '(QBool %s)' % ('true' if e.value else 'false')
+            if isinstance(e.value, str):
+                return '(QTag %s)' % coq_str(e.value)
+            self.fail('literal', e)
+        if isinstance(e, ast.Attribute):
+            if e.attr == '__class__':
+                return '(QClassOf %s)' % self.expr(e.value)
+            if e.attr in OBJ_ATTRS:
+                return '(QAttr %s %s)' % (self.expr(e.value), coq_str(e.attr))
+            self.fail('attribute', e)
+        if isinstance(e, ast.BoolOp) and isinstance(e.op, ast.And):
+            out = self.expr(e.values[-1])
+            for x in reversed(e.values[:-1]):
+                out = '(QAnd %s %s)' % (self.expr(x), out)
+            return out
+        if isinstance(e, ast.Compare) and len(e.ops) == 1 and isinstance(e.ops[0], (ast.Eq, ast.NotEq)):
+            return '(%s %s %s)' % ('QEq' if isinstance(e.ops[0], ast.Eq) else 'QNe', self.expr(e.left), self.expr(e.comparators[0]))
+        if isinstance(e, ast.Tuple):
+            return '(QTuple %s)' % coq_list([self.expr(x) for x in e.elts])
+        if isinstance(e, ast.JoinedStr):
+            parts = []
+            for v in e.values:
+                if isinstance(v, ast.Constant) and isinstance(v.value, str):
+                    parts.append('(QLit %s)' % tokenize_literal(v.value, self.where))
+                elif isinstance(v, ast.FormattedValue) and v.conversion == -1 and v.format_spec is None:
+                    parts.append(self.expr(v.value))
+                else:
+                    self.fail('f-string part', v)
+            return '(QFStr %s)' % coq_list(parts)
+        if isinstance(e, ast.Call) and not e.keywords:
+            f = e.func
+            a = e.args
+            if isinstance(f, ast.Name) and f.id == 'hash' and len(a) == 1:
+                return '(QHash %s)' % self.expr(a[0])
+            if isinstance(f, ast.Name) and f.id == 'len' and len(a) == 1:
+                return '(QLen %s)' % self.expr(a[0])
+            if isinstance(f, ast.Name) and f.id == 'tuple' and len(a) == 1:
+                x = a[0]
+                if isinstance(x, ast.Call) and isinstance(x.func, ast.Name) and x.func.id == 'sorted' and len(x.args) == 1 \
+                        and not x.keywords and isinstance(x.args[0], ast.Call) and isinstance(x.args[0].func, ast.Attribute) \
+                        and x.args[0].func.attr == 'items' and not x.args[0].args:
+                    return '(QSortedItems %s)' % self.expr(x.args[0].func.value)
+                return '(QTupleOf %s)' % self.expr(x)
+            if isinstance(f, ast.Attribute) and isinstance(f.value, ast.Name) and f.value.id == 'util' \
+                    and f.attr == 'get_class_name' and len(a) == 1:
+                return '(QClassName %s)' % self.expr(a[0])
+            if isinstance(f, ast.Attribute) and f.attr == '_to_string' and isinstance(f.value, ast.Name) and f.value.id == 'self' and not a:
+                return 'QToString'
+            if isinstance(f, ast.Attribute) and f.attr == '__eq__' and len(a) == 1 and isinstance(a[0], ast.Name) and a[0].id == 'other' \
+                    and isinstance(f.value, ast.Call) and isinstance(f.value.func, ast.Name) and f.value.func.id == 'super' \
+                    and not f.value.args:
+                return 'QSuperEq'
+            if isinstance(f, ast.Name) and f.id == 'any' and len(a) == 1 and isinstance(a[0], ast.GeneratorExp):
+                g = a[0]
+                gen0 = g.generators[0] if len(g.generators) == 1 else None
+                if gen0 and not gen0.ifs and isinstance(gen0.target, ast.Tuple) and len(gen0.target.elts) == 2 \
+                        and all(isinstance(x, ast.Name) for x in gen0.target.elts) \
+                        and isinstance(gen0.iter, ast.Call) and isinstance(gen0.iter.func, ast.Name) and gen0.iter.func.id == 'zip' \
+                        and len(gen0.iter.args) == 2 and isinstance(g.elt, ast.Compare) and len(g.elt.ops) == 1 \
+                        and isinstance(g.elt.ops[0], ast.NotEq) and isinstance(g.elt.left, ast.Name) \
+                        and isinstance(g.elt.comparators[0], ast.Name) \
+                        and [g.elt.left.id, g.elt.comparators[0].id] == [x.id for x in gen0.target.elts]:
+                    return '(QAnyNeZip %s %s)' % (self.expr(gen0.iter.args[0]), self.expr(gen0.iter.args[1]))
+                self.fail('any(...) shape', e)
+            if isinstance(f, ast.Attribute) and f.attr == 'join' and isinstance(f.value, ast.Constant) and f.value.value == ', ' \
+                    and len(a) == 1 and isinstance(a[0], ast.GeneratorExp) and len(a[0].generators) == 1 and not a[0].generators[0].ifs:
+                g = a[0]
+                gen0 = g.generators[0]
+                # ", ".join(str(x) for x in t)
+                if isinstance(gen0.target, ast.Name) and isinstance(g.elt, ast.Call) and isinstance(g.elt.func, ast.Name) \
+                        and g.elt.func.id == 'str' and len(g.elt.args) == 1 and isinstance(g.elt.args[0], ast.Name) \
+                        and g.elt.args[0].id == gen0.target.id:
+                    return '(QJoinStr %s)' % self.expr(gen0.iter)
+                # ", ".join(f'{k}={v}' for k, v in t.items())
+                if isinstance(gen0.target, ast.Tuple) and len(gen0.target.elts) == 2 and all(isinstance(x, ast.Name) for x in gen0.target.elts) \
+                        and isinstance(gen0.iter, ast.Call) and isinstance(gen0.iter.func, ast.Attribute) and gen0.iter.func.attr == 'items' \
+                        and not gen0.iter.args and isinstance(g.elt, ast.JoinedStr) and len(g.elt.values) == 3:
+                    k, mid, v = g.elt.values
+                    names = [x.id for x in gen0.target.elts]
+                    if isinstance(k, ast.FormattedValue) and isinstance(k.value, ast.Name) and k.value.id == names[0] and k.conversion == -1 \
+                            and k.format_spec is None and isinstance(mid, ast.Constant) and mid.value == '=' \
+                            and isinstance(v, ast.FormattedValue) and isinstance(v.value, ast.Name) and v.value.id == names[1] \
+                            and v.conversion == -1 and v.format_spec is None:
+                        return '(QJoinCoords %s)' % self.expr(gen0.iter.func.value)
+                self.fail('join shape', e)
+        self.fail('expression', e)
+
+    def block(self, stmts):
+        out = []
+        for st in stmts:
+            if isinstance(st, ast.Expr) and isinstance(st.value, ast.Constant):
+                continue
+            out.append(self.stmt(st))
+        return coq_list(out)
+
+    def stmt(self, st):
+        if isinstance(st, ast.Return) and st.value is not None:
+            return '(QSReturn %s)' % self.expr(st.value)
+        if isinstance(st, ast.If):
+            return '(QSIf %s %s %s)' % (self.expr(st.test), self.block(st.body), self.block(st.orelse))
+        if isinstance(st, ast.Assign) and len(st.targets) == 1 and isinstance(st.targets[0], ast.Name):
+            return '(QSAssign %s %s)' % (coq_str(st.targets[0].id), self.expr(st.value))
+        self.fail('statement', st)
+
+    def function(self, fd):
+        a = fd.args
+        if a.kwonlyargs or a.kwarg or a.posonlyargs or a.vararg or a.defaults:
+            self.fail('parameters', fd)
+        params = [p.arg for p in a.args]
+        if not params or params[0] != 'self':
+            self.fail('method without self', fd)
+        return '{| q_params := %s; q_body := %s |}' % (coq_list([coq_str(p) for p in params[1:]]), self.block(fd.body))
+
+
+def generate_obj():
+    lines = ['(* GENERATED by harness/tie_extract.py: the current source of the __eq__, __hash__, __str__, __repr__',
+             '   and _to_string methods, translated into ObjAst.qfun -- do not edit *)',
+             'From Coq Require Import ZArith List String.', 'From SM Require Import ObjAst.',
+             'Import ListNotations.', 'Open Scope string_scope.', '']
+    owners = []
+    for sub, fn in OBJ_FILES:
+        t = parse(os.path.join(SRC, '_private', sub, fn + '.py'))
+        for node in t.body:
+            if isinstance(node, ast.ClassDef):
+                for m in methods_of(node):
+                    if m.name in OBJ_METHODS:
+                        body = [s for s in m.body if not (isinstance(s, ast.Expr) and isinstance(s.value, ast.Constant))]
+                        if len(body) == 1 and isinstance(body[0], ast.Raise):
+                            continue
+                        tr = ObjTranslator('%s.%s' % (node.name, m.name))
+                        ident = 'gen_obj_%s_%s' % (node.name, m.name.strip('_'))
+                        lines.append('Definition %s : qfun := %s.' % (ident, tr.function(m)))
+                        owners.append((node.name, m.name))
+    lines.append('')
+    lines.append('Definition gen_obj_owners : list (string * string) := ' +
+                 coq_list(['(%s, %s)' % (coq_str(c), coq_str(m)) for c, m in sorted(owners)]) + '.')
+    return '\n'.join(lines) + '\n'
+
+
 def write_if_changed(path, text):
     old = open(path).read() if os.path.exists(path) else None
     if old != text:
@@ -996,6 +1192,14 @@ def main():
         print('TIE-TRANSLATE-FAILED: %s' % ex)
     if write_if_changed(os.path.join(coqdir, 'GeneratedOrch.v'), otext):
         print('GeneratedOrch.v rewritten')
+    try:
+        qtext = generate_obj()
+    except (TieError, SyntaxError, OSError) as ex:
+        qtext = ('(* GENERATED: the translator FAILED CLOSED: %s *)\n'
+                 'Definition obj_translator_failed : False := I.\n') % str(ex).replace('*)', '* )')
+        print('TIE-TRANSLATE-FAILED: %s' % ex)
+    if write_if_changed(os.path.join(coqdir, 'GeneratedObj.v'), qtext):
+        print('GeneratedObj.v rewritten')
     out = sys.argv[1] if len(sys.argv) > 1 else os.path.join(os.path.dirname(os.path.dirname(os.path.abspath(__file__))), 'coq', 'Generated.v')
     try:
         text = generate()
